@@ -20,6 +20,7 @@ import (
 	"bytes"
 	"errors"
 	"fmt"
+	"math"
 	"regexp"
 	"sort"
 	"strconv"
@@ -369,7 +370,12 @@ func (ctx *Context) evaluate() {
 	// ctx := &e.Context
 	var details []BufferSpan
 	numOpCountAdd := func(count IntType) bool {
-		e.NumOpCount += count
+		if count > math.MaxInt-e.NumOpCount {
+			// 避免相加溢出后变为负数，从而绕过算力上限
+			e.NumOpCount = math.MaxInt
+		} else {
+			e.NumOpCount += count
+		}
 		if ctx.Config.OpCountLimit > 0 && e.NumOpCount > ctx.Config.OpCountLimit {
 			ctx.Error = errors.New("允许算力上限")
 			return true
@@ -1010,6 +1016,11 @@ func (ctx *Context) evaluate() {
 			t := stackPop()
 			diceNum, ok := readIntOperand(t, "奖惩骰数量")
 			if !ok {
+				return
+			}
+			if diceNum < 0 {
+				// 负数会使算力计数减少
+				ctx.Error = errors.New("E7: 非法数值, 奖惩骰数量不能为负数")
 				return
 			}
 
